@@ -894,11 +894,11 @@ class SVG:
         stroke.fill_rule = stroke.clip_rule = "nonzero"
 
         # a few attributes move in interesting ways
-        stroke.opacity *= stroke.stroke_opacity
+        stroke.opacity = _clamp(stroke.opacity) * _clamp(stroke.stroke_opacity)
         stroke.fill = stroke.stroke
         # the fill and stroke are now different (filled) paths, reset 'fill_opacity'
         # to default and only use a combined 'opacity' in each one.
-        shape.opacity *= shape.fill_opacity
+        shape.opacity = _clamp(shape.opacity) * _clamp(shape.fill_opacity)
         shape.fill_opacity = stroke.fill_opacity = 1.0
 
         # remove all the stroke settings
@@ -1573,8 +1573,9 @@ def _inherit_copy(attrib, child, attr_name):
 def _inherit_multiply(attrib, child, attr_name):
     if attr_name not in attrib and attr_name not in child.attrib:
         return
-    value = float(attrib.get(attr_name, 1.0))
-    value *= float(child.attrib.get(attr_name, 1.0))
+    # the only attribute that multiplies is opacity, which is clamped first
+    value = _clamp(float(attrib.get(attr_name, 1.0)))
+    value *= _clamp(float(child.attrib.get(attr_name, 1.0)))
     child.attrib[attr_name] = ntos(value)
 
 
